@@ -145,6 +145,12 @@ def finish (n nk nsqrt iters qSqrt pPrev : Nat) : Option Step :=
             else some (.ret f (n / f))
           else some .next
 
+/-- dispatch on the way the first loop was left (`continue 'kloop` / fall through) -/
+def afterFwd (n nk nsqrt iters : Nat) : Option FwdRes → Option Step
+  | none => none
+  | some none => some .next
+  | some (some (qSqrt, pPrev)) => finish n nk nsqrt iters qSqrt pPrev
+
 /-- body of `'kloop` for the multiplier `k` (squfof.rs:15-85) -/
 def attempt (seed : Nat → Nat) (n k : Nat) : Option Step :=
   if n * k ≥ W then some .stop                           -- checked_mul: break
@@ -164,10 +170,8 @@ def attempt (seed : Nat → Nat) (n k : Nat) : Option Step :=
             let iters := 3 * r
             if nk < nsqrt * nsqrt then none              -- nk - nsqrt * nsqrt
             else
-              match fwdLoop seed nsqrt iters iters 1 nsqrt 1 (nk - nsqrt * nsqrt) with
-              | none => none
-              | some none => some .next
-              | some (some (qSqrt, pPrev)) => finish n nk nsqrt iters qSqrt pPrev
+              afterFwd n nk nsqrt iters
+                (fwdLoop seed nsqrt iters iters 1 nsqrt 1 (nk - nsqrt * nsqrt))
 
 /-- `'kloop: for k in ..`, arguments: number of multipliers left, `k`. -/
 def kLoop (seed : Nat → Nat) (n : Nat) : Nat → Nat → Option (Option (Nat × Nat))
